@@ -190,7 +190,7 @@ impl Clone for PVar {
 /// single changes that are also combined in pairs
 const N_SINGLES: usize = 15;
 /// all single changes (15..=17: skips with infinite stretch of order fill, filll and negative fil; 18: stretchy finite \\rightskip)
-const N_ALL_SINGLES: usize = 19;
+const N_ALL_SINGLES: usize = 28;
 /// fields touched by single change k (two changes of the same field are not combined)
 const FIELD_OF: [u8; N_SINGLES] = [0, 0, 1, 2, 3, 4, 4, 5, 5, 6, 7, 7, 8, 9, 3];
 
@@ -218,10 +218,20 @@ fn apply_single(v: &mut PVar, k: usize, u: i32) {
         // a ragged-right margin with generous finite stretch: every line, also a one-box line and the
         // last one, gets a finite badness that depends on where it starts
         18 => p.right_skip = Glue { width: Scaled::ZERO, stretch: Scaled(6 * u), shrink: Scaled(2 * u), ..Default::default() },
+        // both sides of the limits in §859 (|line_penalty + b| >= 10000), §831/§869 (|penalty| >= 10000) and §836
+        19 => p.line_penalty = 0,
+        20 => p.line_penalty = -1,
+        21 => p.line_penalty = 1,
+        22 => p.hyphen_penalty = 9999,
+        23 => p.ex_hyphen_penalty = -10001,
+        24 => p.ex_hyphen_penalty = -9999,
+        25 => p.adj_demerits = kp::AWFUL_BAD as i32,
+        26 => p.adj_demerits = kp::AWFUL_BAD as i32 - 101,
+        27 => p.hyphen_penalty = 10001,
         _ => unreachable!(),
     }
 }
-/// 0 = plain defaults; 1..=19 = one change; then every pair of the first 15 changes that touch different fields.
+/// 0 = plain defaults; 1..=28 = one change; then every pair of the first 15 changes that touch different fields.
 fn pvars(u: i32, pairs: bool) -> Vec<(String, PVar)> {
     let base = PVar { params: Params::plain_tex_defaults(), emergency: 0, bare_end: false };
     let mut out = vec![("plain".to_string(), base.clone())];
@@ -326,11 +336,15 @@ enum Ev {
     Feasible { elem: usize, prev: usize, b: i32, p: i32, d: i32, artificial: bool },
     Node { index: usize, line: usize, fit: u8, hyph: bool, total: i32, prev: usize },
     Selected(usize),
+    /// `log_attempt`: a new pass starts (node numbers restart)
+    Attempt,
 }
 #[derive(Default)]
 struct Log(Vec<Ev>);
 impl debug::Logger for Log {
-    fn log_attempt(&mut self, _a: debug::Attempt) {}
+    fn log_attempt(&mut self, _a: debug::Attempt) {
+        self.0.push(Ev::Attempt);
+    }
     fn log_feasible_breakpoint(&mut self, _l: &[ds::Horizontal], fb: debug::FeasibleBreakpoint) {
         self.0.push(Ev::Feasible { elem: fb.elem_index, prev: fb.previous_node_index, b: fb.badness, p: fb.penalty, d: fb.demerits, artificial: fb.artificial_demerits });
     }
@@ -369,7 +383,7 @@ struct Steps {
 /// the break is legal, does not pass a forced break and is within the threshold; for every active node
 /// it reports, the fitness class and the total are the model's. Which breakpoints and nodes are
 /// reported, in which order and under which numbers is not judged.
-fn check_steps(o: &kp::Oracle, log: &Log, got: Option<&Vec<usize>>) -> Steps {
+fn check_steps(o: &kp::Oracle, log: &[Ev], got: Option<&Vec<usize>>) -> Steps {
     let mut out = Steps::default();
     let mut table: std::collections::HashMap<usize, NodeInfo> = std::collections::HashMap::new();
     table.insert(0, NodeInfo { elem: None, line: 0, fit: kp::DECENT, hyph: false, total: 0, prev: 0 });
@@ -383,7 +397,7 @@ fn check_steps(o: &kp::Oracle, log: &Log, got: Option<&Vec<usize>>) -> Steps {
     macro_rules! structure {
         ($($t:tt)*) => {{ out.structure = Some(format!($($t)*)); return out; }};
     }
-    for ev in &log.0 {
+    for ev in log {
         match ev {
             Ev::Feasible { elem, prev, b, p, d, artificial } => {
                 if *elem != cur_elem {
@@ -443,6 +457,7 @@ fn check_steps(o: &kp::Oracle, log: &Log, got: Option<&Vec<usize>>) -> Steps {
                 // the table carries the *model's* values, so later records are judged against TeX, not against the log
                 table.insert(*index, NodeInfo { elem: Some(cur_elem), line: pn.line + 1, fit: mfit, hyph: hy, total: mt, prev: *prev });
             }
+            Ev::Attempt => {}
             Ev::Selected(n) => {
                 let mut chain = vec![];
                 let mut i = *n;
@@ -498,7 +513,7 @@ fn check_instance(idx: u64, inst: &Inst, acc: &mut Acc) {
     }
     let br = o.brute();
     // TeX keeps totals below awful_bad = 2^30-1 (§833) and offers no defence beyond that
-    if br.max_abs_total + mp.adj_demerits.abs() >= kp::AWFUL_BAD {
+    if br.max_abs_total >= kp::AWFUL_BAD {
         acc.skipped += 1;
         acc.count("skipped_totals_reach_awful_bad");
         return;
@@ -541,10 +556,23 @@ fn check_instance(idx: u64, inst: &Inst, acc: &mut Acc) {
         // which orders of infinity set the lines of the optimum (from the model's measures), and
         // whether infinite glue is present on a line whose total of that order is zero
         let mut a = 0usize;
+        let mut a_line = 1usize;
         let mut prev_node = 0usize;
         for bi in seq {
             let Some(b) = o.bp_at(*bi) else { break };
             let m = o.meas[a][b];
+            let lw = o.line_width(a_line);
+            a_line += 1;
+            if m.w == lw {
+                acc.count("optimum_line_fits_exactly");
+                if m.sh == 0 {
+                    acc.count("optimum_line_fits_exactly_with_zero_shrink");
+                }
+            }
+            let (lb, _) = kp::fit_of(&m, lw);
+            if lb == o.threshold && lb > 0 {
+                acc.count("optimum_line_with_badness_equal_to_the_threshold");
+            }
             let nz: Vec<usize> = (1..4).filter(|k| m.st[*k] != 0).collect();
             if nz.len() == 1 {
                 acc.count(["", "optimum_line_set_by_fil_alone", "optimum_line_set_by_fill_alone", "optimum_line_set_by_filll_alone"][nz[0]]);
@@ -574,6 +602,9 @@ fn check_instance(idx: u64, inst: &Inst, acc: &mut Acc) {
             a = b + 1;
             prev_node = *bi;
         }
+    }
+    if (0..o.bps.len()).any(|b| { let bb = o.fit(0, b, 1).0; bb == o.threshold + 1 && bb <= reftex::arith::INF_BAD }) {
+        acc.count("first_line_candidate_with_badness_one_above_the_threshold");
     }
     if br.feasible == 0 {
         acc.count("no_feasible_sequence");
@@ -649,7 +680,7 @@ fn check_instance(idx: u64, inst: &Inst, acc: &mut Acc) {
         },
     };
     // per-step oracle
-    let st = check_steps(&o, &log, got.as_ref());
+    let st = check_steps(&o, &log.0, got.as_ref());
     acc.count_n("logged_feasible_breakpoints_checked", st.judged);
     if let Some(note) = &st.structure {
         acc.class(&format!("note: per-step log not interpreted: {note}"));
@@ -719,7 +750,7 @@ impl Space {
             self.widths,
             self.tolerances,
             self.n_pvars(),
-            if self.pairs { " (plain, 19 single changes, all pairs of the first 15 that touch different fields)" } else { " (plain + single changes)" },
+            if self.pairs { " (plain, 28 single changes, all pairs of the first 15 that touch different fields)" } else { " (plain + single changes)" },
             self.loosenesses,
             self.forces,
             self.endings
@@ -981,17 +1012,234 @@ fn badness_grid() -> Vec<(i64, i64)> {
 /// full line run through every branch of TeX's badness function.
 fn badness_sweep(ctx: &mut Ctx, family_no: u64) {
     let grid = badness_grid();
-    let n = grid.len() as u64 * 2;
-    conv::witness::run_family(ctx, family_no, "badness-sweep", &format!("the line 'a glue a' (no \\parfillskip) with glue stretch = shrink = s and |line width - natural width| = t, stretching and shrinking: every (t, s) with s in 1..=48 sp, t in 0..=240 sp, and t within 1 sp of every threshold of badness() and of the fitness classes for s in {{1pt, 1.5pt, 2pt, 1663496..1663498 sp, 3000000 sp}} ({} pairs); tolerance 10000", grid.len()), n, |r, acc| {
+    let n = grid.len() as u64 * 6;
+    conv::witness::run_family(ctx, family_no, "badness-sweep", &format!("the line 'a glue a' (no \\parfillskip) with glue stretch = shrink = s and |line width - natural width| = t, stretching and shrinking: every (t, s) with s in 1..=48 sp, t in 0..=240 sp, and t within 1 sp of every threshold of badness() and of the fitness classes for s in {{1pt, 1.5pt, 2pt, 1663496..1663498 sp, 3000000 sp}} ({} pairs); tolerance 10000, exactly the badness of the full line, and one below it", grid.len()), n, |r, acc| {
         const G: i32 = 20_000_000;
         for i in r {
-            let (t, s) = grid[(i / 2) as usize];
+            let (t, s) = grid[(i / 6) as usize];
             let shrink = i % 2 == 1;
+            // tolerance: 10000, exactly the badness of the full line, one below it
+            let b = if shrink && t > s { 10000 } else { reftex::arith::badness(t, s) as i32 };
+            let tolerance = [10000, b, b - 1][((i / 2) % 3) as usize];
             let list = vec![ch('a'), glue(G, s as i32, GlueOrder::Normal, s as i32, GlueOrder::Normal), ch('a')];
             let nat = G + 10;
             let width = if shrink { nat - t as i32 } else { nat + t as i32 };
-            let inst = Inst { list, unit: 1, widths: vec![width], tolerance: 10000, params: Params::plain_tex_defaults(), emergency: 0, force: false };
+            let inst = Inst { list, unit: 1, widths: vec![width], tolerance, params: Params::plain_tex_defaults(), emergency: 0, force: false };
             check_instance(i, &inst, acc);
+        }
+    });
+}
+
+/// Raw nodes for the `edges` family: lists are arbitrary sequences of these, not "boxes joined by
+/// separators" - so a list may be empty, start with glue, a penalty, a kern or a discretionary, end in
+/// two glues, contain nothing but discardable items, or open math without closing it.
+fn edge_nodes(u: i32) -> Vec<ds::Horizontal> {
+    vec![
+        ch('a'),
+        ch('b'),
+        conv::chf('a', 1),
+        g(u, 2, 1, 1),
+        g(u, 0, 0, 0),
+        pen(0),
+        pen(-10000),
+        pen(10000),
+        pen(-9999),
+        pen(-10001),
+        pen(10001),
+        pen(9999),
+        disc("-", "", 0),
+        kern(u, ds::KernKind::Explicit),
+        kern(0, ds::KernKind::Normal),
+        math(false),
+        math(true),
+    ]
+}
+
+fn edges(ctx: &mut Ctx, family_no: u64, quick: bool) {
+    let k = edge_nodes(PT).len() as u64;
+    let maxlen = if quick { 4 } else { 5 };
+    let nlists = vcore::strings_upto(k, maxlen);
+    let widths: [&[i32]; 2] = [&[9], &[12, 7]];
+    let tols = [200, 10000];
+    let endings = [0u8, 5];
+    let per = (widths.len() * tols.len() * endings.len()) as u64;
+    conv::witness::run_family(ctx, family_no, "edges", &format!("every list of 0..={maxlen} raw nodes over {k} (a, b, a in a second font, glue, all-zero glue, \\penalty 0 / -10000 / 10000 / -9999 / -10001 / 10001 / 9999, discretionary, explicit kern, zero kern, math-on, math-off) - empty lists, lists that start with glue / a penalty / a kern, end in two glues, hold only discardable items; with and without \\penalty10000\\parfillskip; widths [9] and [12,7]; tolerance 200 and 10000"), nlists * per, |r, acc| {
+        let nodes = edge_nodes(PT);
+        for i in r {
+            let (li, c) = (i / per, i % per);
+            let mut list: Vec<ds::Horizontal> = vcore::nth_string(k, li).into_iter().map(|j| nodes[j as usize].clone()).collect();
+            if list.is_empty() {
+                acc.count("empty_list");
+            }
+            if matches!(list.first(), Some(ds::Horizontal::Glue(_) | ds::Horizontal::Penalty(_) | ds::Horizontal::Kern(_) | ds::Horizontal::Discretionary(_))) {
+                acc.count("list_starts_with_a_discardable_or_a_breakpoint");
+            }
+            if list.len() >= 2 && matches!(&list[list.len() - 2..], [ds::Horizontal::Glue(_), ds::Horizontal::Glue(_)]) {
+                acc.count("list_ends_in_two_glues");
+            }
+            if !list.is_empty() && list.iter().all(|n| !n.non_discardable()) {
+                acc.count("list_of_discardable_items_only");
+            }
+            let d = vcore::digits(c, &[widths.len() as u64, tols.len() as u64, endings.len() as u64]);
+            finish_list(&mut list, PT, false, endings[d[2] as usize]);
+            let inst = Inst { list, unit: PT, widths: widths[d[0] as usize].iter().map(|w| w * PT).collect(), tolerance: tols[d[1] as usize], params: Params::plain_tex_defaults(), emergency: 0, force: false };
+            check_instance(i, &inst, acc);
+        }
+    });
+}
+
+// ------------------------------------------------------------------------------- all attempts
+
+/// `break_line_all_attempts` (named in the property's mechanism list): first pass at \pretolerance,
+/// second at \tolerance (final if \emergencystretch = 0), third with the emergency stretch (§863).
+/// The answer must be the optimum of the first pass that, by the model, has a feasible sequence; when
+/// no pass has one, the forced rescue of §854 applies, which the property does not cover - then only
+/// the legality of the returned breaks is required.
+fn check_all_attempts(idx: u64, list: &[ds::Horizontal], widths: &[i32], pre_tolerance: i32, tolerance: i32, emergency: i32, acc: &mut Acc) {
+    acc.eval();
+    let font = conv::Font { unit: PT };
+    let Ok(mlist) = conv::to_model(list, &conv::font_fn(PT)) else {
+        acc.skipped += 1;
+        return;
+    };
+    let mut params = Params::plain_tex_defaults();
+    params.pre_tolerance = pre_tolerance;
+    params.tolerance = tolerance;
+    params.emergency_stretch = Scaled(emergency);
+    let w64: Vec<i64> = widths.iter().map(|w| *w as i64).collect();
+    // (threshold, emergency stretch, final pass)
+    let mut passes = vec![(pre_tolerance, 0, false), (tolerance, 0, emergency == 0)];
+    if emergency != 0 {
+        passes.push((tolerance, emergency, true));
+    }
+    let mut expected: Option<(usize, kp::Oracle, kp::Brute)> = None;
+    let mut last: Option<kp::Oracle> = None;
+    for (k, (thr, em, _fin)) in passes.iter().enumerate() {
+        let o = kp::Oracle::new(&mlist, &model_params(&params, *em), &w64, *thr as i64);
+        if o.bps.len() > MAX_BPS || !o.monotone() {
+            acc.skipped += 1;
+            acc.count("skipped_non_monotone");
+            return;
+        }
+        let br = o.brute();
+        if br.max_abs_total >= kp::AWFUL_BAD {
+            acc.skipped += 1;
+            return;
+        }
+        if br.feasible > 0 {
+            expected = Some((k, o, br));
+            break;
+        }
+        last = Some(o);
+    }
+    match &expected {
+        Some((k, _, br)) => {
+            acc.count(["answer_from_the_first_pass", "answer_from_the_second_pass", "answer_from_the_emergency_pass"][*k]);
+            if br.feasible >= 2 && br.totals_differ {
+                acc.nontrivial();
+            }
+        }
+        None => acc.count("no_pass_has_a_feasible_sequence_forced_rescue"),
+    }
+    let widths_s: Vec<Scaled> = widths.iter().map(|w| Scaled(*w)).collect();
+    let mut log = Log::default();
+    let mut hl = list.to_vec();
+    let res = {
+        let mut lb = LineBreaker { params: &params, line_widths: &widths_s, line_indents: &[], debug_logger: Some(&mut log), hyphenator: &NoHyph };
+        catch(|| lb.break_line_all_attempts(&font, &NoHyph, &mut vec![], &mut hl))
+    };
+    let case = || json!({"kind": "all_attempts", "list": conv::list_json(list), "widths": widths, "pre_tolerance": pre_tolerance, "tolerance": tolerance, "emergency_stretch": emergency, "text": conv::render(list)});
+    let want_text = || match &expected {
+        Some((k, _, br)) => format!("the optimum of pass {} (total demerits {}, e.g. {:?})", k + 1, br.best.as_ref().map(|b| b.0).unwrap_or(0), br.best.as_ref().map(|b| b.1.clone())),
+        None => "no pass has a feasible sequence: any legal sequence that ends the paragraph".to_string(),
+    };
+    let got = match res {
+        Ok(gv) => gv,
+        Err(p) => {
+            acc.class("FAIL all-attempts panic");
+            conv::witness::offer(acc, "FAIL all-attempts panic", idx, || vcore::Fail { idx, case: case(), expected: want_text(), observed: p.describe(), note: "break_line_all_attempts panicked".into() });
+            return;
+        }
+    };
+    let mut problem: Option<(String, String)> = None;
+    match &expected {
+        Some((k, o, br)) => {
+            match o.eval(&got) {
+                Err(e) => problem = Some(("returned sequence infeasible in the pass that must answer".into(), format!("{got:?}: {e}"))),
+                Ok(t) if Some(t) != br.best.as_ref().map(|b| b.0) => problem = Some(("suboptimal".into(), format!("{got:?}: total demerits {t}"))),
+                Ok(_) => {}
+            }
+            // per-step oracle on the log of the pass that answers (the last one logged)
+            let segs: Vec<&[Ev]> = log.0.split(|e| matches!(e, Ev::Attempt)).collect();
+            if problem.is_none() && segs.len() == k + 2 {
+                let st = check_steps(o, segs[k + 1], Some(&got));
+                acc.count_n("logged_feasible_breakpoints_checked", st.judged);
+                if let Some(v) = st.value {
+                    problem = Some((format!("step: {}", v.0), v.1));
+                }
+            } else if problem.is_none() {
+                acc.class("note: number of logged attempts differs from the model's pass count");
+            }
+        }
+        None => {
+            // legality only
+            let o = last.as_ref().unwrap();
+            let n = mlist.len();
+            let mut prev = 0usize;
+            let mut bad = got.last() != Some(&n);
+            for b in &got {
+                match o.bp_at(*b) {
+                    Some(bi) if bi >= prev => {
+                        bad |= (prev..bi).any(|f| o.bps[f].penalty <= kp::EJECT_PENALTY);
+                        prev = bi + 1;
+                    }
+                    _ => bad = true,
+                }
+            }
+            if bad {
+                problem = Some(("forced rescue returns an illegal sequence".into(), format!("{got:?}")));
+            }
+        }
+    }
+    match problem {
+        None => acc.class(&format!("ok all-attempts pass={}", expected.as_ref().map(|e| e.0 + 1).unwrap_or(0))),
+        Some((kind, obs)) => {
+            let cls = format!("FAIL all-attempts: {kind}");
+            acc.class(&cls);
+            debug_class(&cls, &|| format!("{} | want {} | got {obs}", vcore::compact(&case(), 1500), want_text()));
+            conv::witness::offer(acc, &cls, idx, || vcore::Fail { idx, case: case(), expected: want_text(), observed: obs.clone(), note: cls.clone() });
+        }
+    }
+}
+
+const ATTEMPT_CONFIGS: [(i32, i32, i32); 6] = [(100, 200, 0), (-1, 200, 0), (0, 100, 1), (100, 10000, 0), (50, 100, 2), (200, 100, 3)];
+
+fn all_attempts(ctx: &mut Ctx, family_no: u64, quick: bool) {
+    let nb = if quick { 4 } else { 5 };
+    let k = reduced_menu(PT).len() as u64;
+    let mut rad = vec![k; nb - 1];
+    rad.extend(vec![2u64; nb]);
+    let widths: [&[i32]; 3] = [&[9], &[12], &[12, 7]];
+    rad.push(widths.len() as u64);
+    rad.push(ATTEMPT_CONFIGS.len() as u64);
+    rad.push(2);
+    let n = vcore::product(&rad);
+    conv::witness::run_family(ctx, family_no, "all-attempts", &format!("break_line_all_attempts on {nb} boxes joined by the 'reduced' menu, widths [9], [12], [12,7], (pretolerance, tolerance, emergency stretch in u) in {ATTEMPT_CONFIGS:?}, with \\parfillskip and bare end"), n, |r, acc| {
+        let menu = reduced_menu(PT);
+        for i in r {
+            let d = vcore::digits(i, &rad);
+            let mut list = vec![];
+            for b in 0..nb {
+                list.push(ch(if d[nb - 1 + b] == 0 { 'a' } else { 'b' }));
+                if b + 1 < nb {
+                    list.extend(menu[d[b] as usize].iter().cloned());
+                }
+            }
+            let rest = &d[2 * nb - 1..];
+            finish_list(&mut list, PT, false, if rest[2] == 0 { 0 } else { 5 });
+            let (pt, tol, em) = ATTEMPT_CONFIGS[rest[1] as usize];
+            let w: Vec<i32> = widths[rest[0] as usize].iter().map(|w| w * PT).collect();
+            check_all_attempts(i, &list, &w, pt, tol, em * PT, acc);
         }
     });
 }
@@ -1001,12 +1249,20 @@ fn main() {
     ctx.assume("the premise of the property is checked per instance by the model: for every line start and every line number, 'the line is overfull' is upward closed in the line end; other instances are skipped and counted (skipped_non_monotone)");
     ctx.assume("a line's width, stretch and shrink are what TeX's try_break measures (§823, §837-844): background + totals up to the break - totals up to the previous break - the discardable items that follow the previous break; this is the definition the demerits of the property refer to");
     ctx.assume("lists have at most 12 legal breakpoints (every sequence of them is enumerated); glue in a paragraph has finite shrink (§825 makes anything else an error); discretionary lists are characters, the nodes a discretionary replaces are characters or font kerns (a directed probe shows the crate examines replaced nodes as ordinary nodes, so a replaced *explicit* kern followed by glue becomes a breakpoint where TeX §869 passes over it - outside the enumerated alphabet, reported in the build notes)");
-    ctx.assume("total demerits stay below awful_bad = 2^30-1 (§833; TeX itself has no defence beyond it): instances where some feasible prefix reaches it are skipped and counted");
+    ctx.assume("total demerits stay below awful_bad = 2^30-1 (§833; TeX itself has no defence beyond it): instances where the total of some feasible prefix reaches it are skipped and counted; |adj_demerits| itself may be as large as awful_bad (§836 clamps the threshold)");
     ctx.assume("force_solution = true is only exercised when a feasible sequence exists (the artificial-demerits rescue of §854 is outside the property, which is stated for force_solution = false)");
     ctx.assume("per-step oracle (debug::Logger is listed under observe_at): what the Logger reports must be true - b, p, d of every reported feasible breakpoint and the fitness class and total of every reported active node are recomputed by the model from (predecessor, position); legality of the break, forced breaks and the threshold are enforced. Which breakpoints/nodes are reported, their order, the node numbers, the line-number/hyphenation bookkeeping fields and log_selected_node are not judged (recorded as 'note:' outcome classes). The table of active nodes carries the model's values, not the logged ones");
 
     if let Some((_fam, case)) = ctx.replay_case() {
         let mut acc = Acc::default();
+        if case["kind"] == "all_attempts" {
+            let list = conv::list_from_json(&case["list"]).unwrap_or_default();
+            let w: Vec<i32> = case["widths"].as_array().map(|a| a.iter().map(|x| x.as_i64().unwrap_or(0) as i32).collect()).unwrap_or_default();
+            let gi = |k: &str| case[k].as_i64().unwrap_or(0) as i32;
+            check_all_attempts(0, &list, &w, gi("pre_tolerance"), gi("tolerance"), gi("emergency_stretch"), &mut acc);
+            conv::witness::collect(&mut acc, 0);
+            ctx.finish_replay(acc);
+        }
         match Inst::from_json(&case) {
             Some(inst) => check_instance(0, &inst, &mut acc),
             None => {
@@ -1027,6 +1283,8 @@ fn main() {
         s.run(&mut ctx, k as u64);
     }
     badness_sweep(&mut ctx, sp.len() as u64);
+    edges(&mut ctx, sp.len() as u64 + 1, quick);
+    all_attempts(&mut ctx, sp.len() as u64 + 2, quick);
 
     ctx.require("two_feasible_sequences_tie_or_differ_by_fitness_class", "two or more feasible sequences tie for the optimum, or some breakpoint is reached in two fitness classes");
     ctx.require("optimum_pays_adj_demerits", "the optimum contains adjacent lines of incompatible fitness classes");
@@ -1045,6 +1303,18 @@ fn main() {
     ctx.require("optimum_line_with_two_infinite_orders", "a line of the optimum with non-zero totals at two infinite orders");
     ctx.require("optimum_line_where_an_infinite_order_cancels", "a line of the optimum carries infinite glue of an order whose total on that line is zero");
     ctx.require("optimum_line_where_cancellation_leaves_finite_stretch_to_decide", "every infinite total of such a line is zero: the finite stretch decides the badness");
+    ctx.require("optimum_line_fits_exactly", "a line of the optimum has exactly the line width (badness 0 by t = 0)");
+    ctx.require("optimum_line_fits_exactly_with_zero_shrink", "the same with no shrinkability at all (§853: 0 > 0 is false, the line is not overfull)");
+    ctx.require("optimum_line_with_badness_equal_to_the_threshold", "a line of the optimum whose badness equals the threshold exactly");
+    ctx.require("first_line_candidate_with_badness_one_above_the_threshold", "a candidate first line whose badness is exactly one above the threshold (must not be feasible)");
+    ctx.require("empty_list", "the empty horizontal list");
+    ctx.require("list_starts_with_a_discardable_or_a_breakpoint", "a list whose first node is glue, a penalty, a kern or a discretionary");
+    ctx.require("list_ends_in_two_glues", "a list whose last two nodes are glue");
+    ctx.require("list_of_discardable_items_only", "a non-empty list without any non-discardable item");
+    ctx.require("answer_from_the_first_pass", "break_line_all_attempts: the first pass has a feasible sequence");
+    ctx.require("answer_from_the_second_pass", "… the first pass has none, the second has");
+    ctx.require("answer_from_the_emergency_pass", "… only the pass with the emergency stretch has");
+    ctx.require("no_pass_has_a_feasible_sequence_forced_rescue", "… no pass has one (forced rescue, legality only)");
     ctx.require("skipped_non_monotone", "the model detects instances outside the monotonicity premise");
     ctx.require("logged_feasible_breakpoints_checked", "feasible breakpoints reported through debug::Logger and checked against the model");
     ctx.finish("one evaluation = one call of break_line_single_attempt on an enumerated (list, line widths, tolerance, parameters) instance, judged end to end against the brute-force optimum over every sequence of legal breakpoints and per step against the model's badness/penalty/demerits for every logged feasible breakpoint; non-trivial = at least two feasible sequences with different total demerits");
